@@ -675,11 +675,11 @@ def run_c12(tier, seed, scale, verif):
         p = para() + rng.choice(["\n\n", "\n\n", "\n\n\n"])
         d = para() + rng.choice(["", "\n"])
         cases.append((p, d))
-    # two pairs whose whole has many hundreds of diagnostics (each part a few hundred)
+    # two pairs whose whole has 650-900 diagnostics (each part 320-460)
     for _ in range(2):
         def big(n):
             return "\n".join(rng.choice(["We saw a tset here.", "It is better then that.", "I recieve mail daily.", "This is the the end."]) for _ in range(n))
-        cases.append((big(rng.randint(280, 340)) + "\n\n", big(rng.randint(280, 340)) + "\n"))
+        cases.append((big(rng.randint(420, 600)) + "\n\n", big(rng.randint(420, 600)) + "\n"))
     base = os.path.join(verif, "target", "run", "lsx_c12")
     shutil.rmtree(base, ignore_errors=True)
     os.makedirs(base)
